@@ -62,7 +62,10 @@ Shapes == {"nil", "true", "int0", "int5", "intneg", "float", "strempty", "str", 
            "biglist", "bigints", "maxint", "minint", "strregex", "strbracket", "strbackslash", "struni", "niltime", "nilstringer", "nilerr",
            "mapiface", "uintmap", "listoflists", "float0", "floatbig", "nan",
            \* values that contain themselves; very long values
-           "cyclist", "cycmap", "cycptr", "cycmutual", "strlong", "listlong"} \cup CharShapes \cup StrShapes \cup IntEdgeShapes
+           "cyclist", "cycmap", "cycptr", "cycmutual", "strlong", "listlong",
+           \* interface slices with methods, pointers that lead to themselves, defined pointer types, NaN keys, keys of different
+           \* defined types with one value, shared sub-values sixty levels deep
+           "errslice", "stringerslice", "ptrcycle", "ptrptrmap", "namedptr", "nanmap", "nanifacemap", "namedkeys", "dag60", "dagmap"} \cup CharShapes \cup StrShapes \cup IntEdgeShapes
 V == Var("v")
 F0(f) == Filt(f, V, <<>>)
 Skeletons ==
@@ -95,10 +98,22 @@ Skeletons ==
     setv |-> <<Set("z", V), PrintS(Item(Var("z"), LI(0)))>>, ternary |-> <<PrintS(Cond(V, V, V))>>, arr |-> <<PrintS(Filt("join", Arr(<<V, V>>), <<>>))>>,
     attrName |-> <<PrintS(Attr(V, "Name"))>>, attrPName |-> <<PrintS(Attr(V, "PName"))>>,
     attrseq |-> <<PrintS(Attr(V, "nosuch")), PrintS(Attr(V, "X")), PrintS(Attr(V, "Name")), PrintS(Attr(V, "nosuch")), PrintS(Attr(V, "Y"))>>,
-    hash |-> <<Set("h", Hash(<<LS(<<107>>)>>, <<V>>)), PrintS(Attr(Attr(Var("h"), "k"), "a"))>>, callv |-> <<PrintS(MCall("v", "a", <<>>))>> ]
+    hash |-> <<Set("h", Hash(<<LS(<<107>>)>>, <<V>>)), PrintS(Attr(Attr(Var("h"), "k"), "a"))>>, callv |-> <<PrintS(MCall("v", "a", <<>>))>>,
+    splitslice |-> <<PrintS(Filt("slice", Filt("split", V, <<LS(<<44>>)>>), <<LI(3), Un("-", LI(2))>>))>>,
+    keysslice |-> <<PrintS(Filt("slice", Filt("keys", V, <<>>), <<LI(2), Un("-", LI(2))>>))>>,
+    forkeys |-> <<For1("k", Filt("keys", V, <<>>), <<PrintS(Var("k"))>>)>>, firstlast |-> <<PrintS(Filt("first", V, <<>>)), PrintS(Filt("last", V, <<>>))>>,
+    dumpv |-> <<PrintS(Bin("~", V, LS(<<33>>))), If1(Bin("==", V, LS(<<120>>)), <<Text(<<101>>)>>)>> ]
+\* slice with every small start and length on every list-like shape
+SliceShapes == {"strs", "ints", "arr3", "bigints", "str", "listmixed", "bytes", "strempty", "listempty", "biglist", "uintmap", "nilslice"}
+SliceCases == {[fam |-> "slice", sh |-> sh, a |-> a, b |-> b, via |-> via] : sh \in SliceShapes, a \in -3..4, b \in -4..4, via \in {"direct", "split", "keys"}}
+SliceProg(c) == LET base == CASE c.via = "split" -> Filt("split", LS(<<97, 44, 98, 44, 99, 44, 100>>), <<LS(<<44>>)>>)
+                              [] c.via = "keys" -> Filt("keys", Hash(<<LS(<<97>>), LS(<<98>>), LS(<<99>>)>>, <<LI(1), LI(2), LI(3)>>), <<>>)
+                              [] OTHER -> V
+                    num(n) == IF n < 0 THEN Un("-", LI(-n)) ELSE LI(n)
+                IN <<PrintS(Filt("join", Filt("slice", base, <<num(c.a), num(c.b)>>), <<LS(<<44>>)>>)), PrintS(Filt("length", Filt("slice", base, <<num(c.a)>>), <<>>))>>
 \* a loop over range(1, 2^40) is a finite but enormous computation the template itself asks for: not a hang of the engine
 HugeInts == {"int64", "maxint", "minint", "floatbig", "listlong", "strlong"} \cup IntEdgeShapes
-ShapeCasesOf(sk) == {[fam |-> "shape", sk |-> sk, sh |-> sh] : sh \in (IF sk = "range" THEN Shapes \ HugeInts ELSE Shapes)}
+ShapeCasesOf(sk) == {[fam |-> "shape", sk |-> sk, sh |-> sh] : sh \in (IF sk = "range" THEN Shapes \ HugeInts ELSE IF sk = "json" THEN Shapes \ {"dag60", "dagmap"} ELSE Shapes)}
 
 \* ---- every built-in filter, function and test with the value as subject and in every argument position -------
 FilterNames == {"default", "escape", "e", "upper", "lower", "trim", "raw", "length", "count", "join", "split", "date", "url_encode", "capitalize",
@@ -152,6 +167,8 @@ HugeLoop(c) == \/ c.n = "range" /\ c.sh \in HugeInts /\ c.form \notin {"g2r", "g
                   /\ c.sh \in {"minint", "maxint", "floatbig", "listlong", "strlong", "i:9223372036854775806", "i:-9223372036854775807"}
                \* (a 600 KB regular expression matched against 600 KB of text is a finite but enormous computation, too)
                \/ c.n = "matches" /\ c.sh = "strlong"
+               \* (the JSON text of a value with shared sub-values sixty levels deep is 2^60 elements long)
+               \/ c.n = "json_encode" /\ c.sh \in {"dag60", "dagmap"}
 \* (an operator of the form, not one big constant set: TLC builds constant sets eagerly, on one thread, and unites them quadratically)
 NamesOfForm(fo) == IF fo \in FilterForms THEN FilterNames ELSE IF fo \in FunctionForms THEN FunctionNames ELSE TestNames
 GenCasesOf(fo) == {c \in {[fam |-> "gen", form |-> fo, n |-> n, sh |-> sh] : n \in NamesOfForm(fo), sh \in Shapes} : ~HugeLoop(c)}
@@ -188,7 +205,10 @@ BigForms == [ minus |-> [s |-> "{{ %I1 }}", a |-> "-", b |-> ""], nots |-> [s |-
               applies |-> [s |-> "%Ix%J", a |-> "{% apply upper %}", b |-> "{% endapply %}"], spaces |-> [s |-> "%Ix%J", a |-> "{% spaceless %}", b |-> "{% endspaceless %}"],
               filters |-> [s |-> "{{ x%I }}", a |-> "|upper", b |-> ""], plus |-> [s |-> "{{ 1%I }}", a |-> "+1", b |-> ""], cats |-> [s |-> "{{ 'a'%I }}", a |-> "~'a'", b |-> ""],
               attrs |-> [s |-> "{{ x%I }}", a |-> ".a", b |-> ""], idx |-> [s |-> "{{ x%I }}", a |-> "[0]", b |-> ""], terns |-> [s |-> "{{ %I1 }}", a |-> "1?1:", b |-> ""],
-              calls |-> [s |-> "{{ %I1%J }}", a |-> "max(1,", b |-> ")"], ands |-> [s |-> "{{ 1%I }}", a |-> " and 1", b |-> ""], pows |-> [s |-> "{{ 1%I }}", a |-> "**1", b |-> ""],
+              calls |-> [s |-> "{{ %I1%J }}", a |-> "max(1,", b |-> ")"], calls1 |-> [s |-> "{{ %I1%J }}", a |-> "max(", b |-> ")"], mcalls |-> [s |-> "{{ %I1%J }}", a |-> "m.f(", b |-> ")"],
+              filtargs |-> [s |-> "{{ %I1%J }}", a |-> "a|default(", b |-> ")"], testargs |-> [s |-> "{{ %I1%J }}", a |-> "1 is divisible_by(", b |-> ")"],
+              idxnest |-> [s |-> "{{ %I1%J }}", a |-> "a[", b |-> "]"], hashidx |-> [s |-> "{{ %I1%J }}", a |-> "{'a':1}[", b |-> "]"], condnest |-> [s |-> "{{ %I1%J }}", a |-> "(1?", b |-> ":1)"],
+              incwith |-> [s |-> "{% include 't1' with %I1%J %}", a |-> "{'a':", b |-> "}"], ands |-> [s |-> "{{ 1%I }}", a |-> " and 1", b |-> ""], pows |-> [s |-> "{{ 1%I }}", a |-> "**1", b |-> ""],
               args |-> [s |-> "{{ max(1%I) }}", a |-> ",1", b |-> ""], elems |-> [s |-> "{{ [1%I]|length }}", a |-> ",1", b |-> ""], elifs |-> [s |-> "{% if 0 %}a%I{% endif %}", a |-> "{% elseif 0 %}b", b |-> ""],
               opens |-> [s |-> "%I", a |-> "{{", b |-> ""], opensb |-> [s |-> "%I", a |-> "{% if x %}", b |-> ""], closes |-> [s |-> "a%I", a |-> "{% endif %}", b |-> ""],
               digits |-> [s |-> "{{ 1%I }}", a |-> "7", b |-> ""], dots |-> [s |-> "{{ 1.%I }}", a |-> "7", b |-> ""], longid |-> [s |-> "{{ a%I }}", a |-> "b", b |-> ""],
@@ -232,9 +252,14 @@ CaseOf(c) ==
       [] c.fam = "shape" ->
            [prop |-> "C05", key |-> ToJson(c), tags |-> {"fam:shape", "sk:" \o c.sk, "sh:" \o c.sh}, entry |-> "main",
             ctx |-> ("v" :> [t |-> "shape", kind |-> c.sh]),
-            runs |-> {[label |-> "shape", tp |-> ("main" :> Source(Skeletons[c.sk], LMin)) @@ ("t1" :> Source(<<PrintS(Var("a"))>>, LMin))
+            \* (the second run: the engine in debug mode, which logs the values it meets)
+            runs |-> {[label |-> "shape" \o (IF dbg THEN "/debug" ELSE ""), tp |-> ("main" :> Source(Skeletons[c.sk], LMin)) @@ ("t1" :> Source(<<PrintS(Var("a"))>>, LMin))
                                                @@ ("a" :> Source(Lib, LMin)) @@ ("12" :> Source(Lib, LMin)),
-                       xcalls |-> [id \in {} |-> 0], probe |-> TRUE]}, expect |-> AnyExpect]
+                       xcalls |-> [id \in {} |-> 0], probe |-> TRUE, debug |-> dbg] : dbg \in BOOLEAN}, expect |-> AnyExpect]
+      [] c.fam = "slice" ->
+           [prop |-> "C05", key |-> ToJson(c), tags |-> {"fam:slice", "sh:" \o c.sh, "via:" \o c.via}, entry |-> "main",
+            ctx |-> ("v" :> [t |-> "shape", kind |-> c.sh]),
+            runs |-> {[label |-> "slice", tp |-> ("main" :> Source(SliceProg(c), LMin)), xcalls |-> [id \in {} |-> 0], probe |-> TRUE]}, expect |-> AnyExpect]
       [] c.fam = "gen" ->
            [prop |-> "C05", key |-> ToJson(c), tags |-> {"fam:gen", "form:" \o c.form, "n:" \o c.n, "sh:" \o c.sh}, entry |-> "main",
             ctx |-> ("v" :> [t |-> "shape", kind |-> c.sh]),
@@ -259,7 +284,8 @@ Fams == {"tok", "shape", "dec"}
 Init == cs \in {[part |-> "tok", o |-> o, c |-> c, tl |-> tl] : o \in Opens, c \in Closes, tl \in Tails}
              \cup {[part |-> "shape", o |-> sk, c |-> "", tl |-> ""] : sk \in DOMAIN Skeletons}
              \cup {[part |-> "dec", o |-> "", c |-> "", tl |-> ""],
-                   [part |-> "trunc", o |-> "", c |-> "", tl |-> ""], [part |-> "ident", o |-> "", c |-> "", tl |-> ""], [part |-> "big", o |-> "", c |-> "", tl |-> ""]}
+                   [part |-> "trunc", o |-> "", c |-> "", tl |-> ""], [part |-> "ident", o |-> "", c |-> "", tl |-> ""], [part |-> "big", o |-> "", c |-> "", tl |-> ""],
+                   [part |-> "slice", o |-> "", c |-> "", tl |-> ""]}
              \cup {[part |-> "gen", o |-> fo, c |-> "", tl |-> ""] : fo \in FilterForms \cup FunctionForms \cup TestForms}
 Next == "part" \in DOMAIN cs /\
         cs' \in (CASE cs.part = "tok" -> {c \in TokCasesOf(cs.o, cs.c, cs.tl) : TokRelevant(c)}
@@ -267,6 +293,7 @@ Next == "part" \in DOMAIN cs /\
                    [] cs.part = "gen" -> GenCasesOf(cs.o)
                    [] cs.part = "ident" -> IdentCases
                    [] cs.part = "big" -> BigCases
+                   [] cs.part = "slice" -> SliceCases
                    [] cs.part = "trunc" -> TruncCases
                    [] cs.part = "dec" -> DecCases)
 Spec == Init /\ [][Next]_cs
